@@ -358,7 +358,7 @@ func init() {
 				k := fmt.Sprintf("%s/v%d/d%d", base, ver, dia)
 				if n := len(extra[k]); len(c.Body) > 400 {
 					// long lists belong to C07; mutation seeds stay small
-				} else if n < 2 || (n < 4 && len(c.Body) > len(extra[k][n-1])) { // the base value and some longer ones
+				} else if n < 2 || (n < 6 && len(c.Body) > len(extra[k][n-1])) { // the base value and some longer ones
 					extra[k] = append(extra[k], c.Body)
 				}
 				return nil
